@@ -684,6 +684,174 @@ theorem ofH5_toH5_numOK {b b' : Blob} {h : H5} (h1 : toH5 b = .ok h) (h2 : ofH5 
   rw [e1, e2, e3, ← hs0e]
   exact ⟨g1, g2, g3⟩
 
+/-! ### the shape of whatever `ofH5` returns -/
+
+theorem decRunners_lengths (nodes : List NodeId) :
+    ∀ (a : List Int) (p c : List Num) (ra : List NodeId) (rp rc : List Num),
+      decRunners nodes a p c = .ok (ra, rp, rc) →
+      ra.length = rp.length ∧ ra.length = rc.length ∧ ra.length ≤ a.length := by
+  intro a
+  induction a with
+  | nil => intro p c ra rp rc h; simp [decRunners] at h; obtain ⟨rfl, rfl, rfl⟩ := h; simp
+  | cons a0 as ih =>
+    intro p c ra rp rc h
+    cases p with
+    | nil => simp [decRunners] at h; obtain ⟨rfl, rfl, rfl⟩ := h; simp
+    | cons p0 ps =>
+      cases c with
+      | nil => simp [decRunners] at h; obtain ⟨rfl, rfl, rfl⟩ := h; simp
+      | cons c0 cs =>
+        simp only [decRunners] at h
+        by_cases hneg : a0 < 0
+        · simp [hneg] at h; obtain ⟨rfl, rfl, rfl⟩ := h; simp
+        · simp only [hneg, if_false] at h
+          cases h1 : pyIndex nodes a0 with
+          | error x => simp [h1] at h
+          | ok n =>
+            cases h2 : decRunners nodes as ps cs with
+            | error x => simp [h1, h2] at h
+            | ok v =>
+              obtain ⟨ns, ps', cs'⟩ := v
+              simp only [h1, h2, Except.ok.injEq, Prod.mk.injEq] at h
+              obtain ⟨rfl, rfl, rfl⟩ := h
+              obtain ⟨g1, g2, g3⟩ := ih ps cs ns ps' cs' h2
+              simp [g1, g2]
+              omega
+
+/-- runner-up lists as `hdf5_to_blob` builds them: all three present with
+equal length on a directly assigned level, all three absent otherwise -/
+def LevelRec.runnerShape (lr : LevelRec) (width : Nat) : Prop :=
+  (lr.direct = true → ∃ ra rp rc, lr.runAsg = some ra ∧ lr.runProb = some rp ∧
+      lr.runCorr = some rc ∧ ra.length = rp.length ∧ ra.length = rc.length ∧ ra.length ≤ width) ∧
+  (lr.direct = false → lr.runAsg = none ∧ lr.runProb = none ∧ lr.runCorr = none)
+
+theorem decLevel_shape {i2n : List (Lvl × List NodeId)} {hasR : Bool} {l : Lvl} {d : Bool}
+    {s : Slot} {e : Lvl × LevelRec} (h : decLevel i2n hasR l d s = .ok e) :
+    e.1 = l ∧ e.2.direct = d ∧ e.2.runnerShape s.rAsg.length := by
+  unfold decLevel at h
+  cases h1 : i2n.lookup l with
+  | none => simp [h1] at h
+  | some nodes =>
+    cases h2 : pyIndex nodes s.asg with
+    | error x => simp [h1, h2] at h
+    | ok a =>
+      simp only [h1, h2] at h
+      cases d with
+      | false =>
+        simp only [Bool.false_eq_true, if_false, Except.ok.injEq] at h
+        subst h; simp [LevelRec.runnerShape]
+      | true =>
+        cases hasR with
+        | false =>
+          simp only [if_true, Bool.false_eq_true, if_false, Except.ok.injEq] at h
+          subst h; simp [LevelRec.runnerShape]
+        | true =>
+          simp only [if_true] at h
+          cases h3 : decRunners nodes s.rAsg s.rProb s.rCorr with
+          | error x => simp [h3] at h
+          | ok v =>
+            obtain ⟨ra, rp, rc⟩ := v
+            simp only [h3, Except.ok.injEq] at h
+            subst h
+            obtain ⟨g1, g2, g3⟩ := decRunners_lengths nodes _ _ _ _ _ _ h3
+            refine ⟨rfl, rfl, ?_, ?_⟩
+            · intro _
+              exact ⟨ra, rp, rc, rfl, rfl, rfl, g1, g2, g3⟩
+            · intro hd
+              simp at hd
+
+theorem decCell_flags {i2n : List (Lvl × List NodeId)} {hasR : Bool} :
+    ∀ {input : List (Lvl × Bool × Slot)} {es : List (Lvl × LevelRec)},
+      decCell i2n hasR input = .ok es →
+      es.map (fun e => (e.1, e.2.direct)) = input.map (fun x => (x.1, x.2.1))
+  | [], es, h => by
+    simp only [decCell, Except.ok.injEq] at h
+    subst h; rfl
+  | (l, d, s) :: rest, es, h => by
+    simp only [decCell] at h
+    cases h1 : decLevel i2n hasR l d s with
+    | error x => simp [h1] at h
+    | ok e0 =>
+      cases h2 : decCell i2n hasR rest with
+      | error x => simp [h1, h2] at h
+      | ok es' =>
+        simp only [h1, h2, Except.ok.injEq] at h
+        subst h
+        obtain ⟨g1, g2, _⟩ := decLevel_shape h1
+        simp [g1, g2, decCell_flags h2]
+
+theorem zip_zip_fst {α β γ} : ∀ (xs : List α) (ys : List β) (zs : List γ),
+    (xs.zip (ys.zip zs)).map (fun x => (x.1, x.2.1)) = (xs.zip ys).take zs.length
+  | [], _, _ => by simp
+  | _ :: _, [], _ => by simp
+  | _ :: _, _ :: _, [] => by simp
+  | x :: xs, y :: ys, z :: zs => by simp [zip_zip_fst xs ys zs]
+
+/-- whatever was written: every record read back has runner-up lists of the
+`hdf5_to_blob` shape, and all records carry the same `(level, flag)` list -/
+theorem ofH5_toH5_shape {b b' : Blob} {h : H5} (h1 : toH5 b = .ok h) (h2 : ofH5 h = .ok b') :
+    (∀ r ∈ b'.results, ∀ e ∈ r.levels, e.2.runnerShape b.nRunners) ∧
+    (∀ r ∈ b'.results, r.levels.map (fun e => (e.1, e.2.direct)) =
+      (h.tree.hierarchy.zip h.directlyAssigned).take b.tree.hierarchy.length) := by
+  obtain ⟨slots, hes, ht, hn, hc, ha, hp, hco, hag, hrun⟩ := toH5_inv h1
+  obtain ⟨_, hgood⟩ := encCells_good hes
+  have key : ∃ (fa : Slot → List Int) (fp fc : Slot → List Num) (hasR : Bool),
+      (∀ s : Slot, s.rAsg.length = b.nRunners → (fa s).length ≤ b.nRunners) ∧
+      decCells h.tree.hierarchy h.directlyAssigned h.intToNode hasR
+        (h.cellId.zip (slots.map (fun row => row.map (fun s => reSlot s (fa s) (fp s) (fc s)))))
+        = .ok b'.results := by
+    unfold ofH5 at h2
+    by_cases hnr : b.nRunners > 0
+    · simp only [hrun, hnr, if_true, ha, hp, hco, hag, rows_maps] at h2
+      refine ⟨fun s => s.rAsg, fun s => s.rProb, fun s => s.rCorr, true,
+        fun s hs => by simp [hs], ?_⟩
+      cases hd : decCells h.tree.hierarchy h.directlyAssigned h.intToNode true
+          (h.cellId.zip (slots.map (fun row => row.map
+            (fun s => reSlot s s.rAsg s.rProb s.rCorr)))) with
+      | error x => simp [hd] at h2
+      | ok rs =>
+        simp only [hd, Except.ok.injEq] at h2
+        subst h2; rfl
+    · simp only [hrun, hnr, if_false, ha, hp, hco, hag, List.map_map, Function.comp_def,
+        rows_maps] at h2
+      refine ⟨fun _ => [], fun _ => [], fun _ => [], false, fun s hs => by simp, ?_⟩
+      cases hd : decCells h.tree.hierarchy h.directlyAssigned h.intToNode false
+          (h.cellId.zip (slots.map (fun row => row.map (fun s => reSlot s [] [] [])))) with
+      | error x => simp [hd] at h2
+      | ok rs =>
+        simp only [hd, Except.ok.injEq] at h2
+        subst h2; rfl
+  obtain ⟨fa, fp, fc, hasR, hfa, hdec⟩ := key
+  constructor
+  · intro r hr e he
+    obtain ⟨x, hx, hcell⟩ := decCells_mem hdec r hr
+    obtain ⟨y, hy, hlev⟩ := decCell_mem hcell e he
+    have hrow : x.2 ∈ slots.map (fun row => row.map (fun s => reSlot s (fa s) (fp s) (fc s))) :=
+      (List.of_mem_zip (a := x.1) (b := x.2) hx).2
+    obtain ⟨row0, hrow0, hx2⟩ := List.mem_map.mp hrow
+    have hs : y.2.2 ∈ x.2 := by
+      have h1 := (List.of_mem_zip (a := y.1) (b := y.2) hy).2
+      exact (List.of_mem_zip (a := y.2.1) (b := y.2.2) h1).2
+    rw [← hx2] at hs
+    obtain ⟨s0, hs0, hs0e⟩ := List.mem_map.mp hs
+    obtain ⟨_, _, _, hw, _, _⟩ := (hgood row0 hrow0).2 s0 hs0
+    obtain ⟨_, _, hshape⟩ := decLevel_shape hlev
+    have hlen : y.2.2.rAsg.length ≤ b.nRunners := by
+      rw [← hs0e]; simpa [reSlot] using hfa s0 hw
+    obtain ⟨g1, g2⟩ := hshape
+    refine ⟨?_, g2⟩
+    intro hd
+    obtain ⟨ra, rp, rc, e1, e2, e3, l1, l2, l3⟩ := g1 hd
+    exact ⟨ra, rp, rc, e1, e2, e3, l1, l2, by omega⟩
+  · intro r hr
+    obtain ⟨x, hx, hcell⟩ := decCells_mem hdec r hr
+    have hrow : x.2 ∈ slots.map (fun row => row.map (fun s => reSlot s (fa s) (fp s) (fc s))) :=
+      (List.of_mem_zip (a := x.1) (b := x.2) hx).2
+    obtain ⟨row0, hrow0, hx2⟩ := List.mem_map.mp hrow
+    have hlen : x.2.length = b.tree.hierarchy.length := by
+      rw [← hx2]; simp [(hgood row0 hrow0).1]
+    rw [decCell_flags hcell, zip_zip_fst, hlen]
+
 /-! ### CSV rows, column by column -/
 
 /-- the columns of one level, before level names are made readable -/
